@@ -226,6 +226,7 @@ pub fn opts_for(prop: &str) -> GenOpts {
                 Kind::ArrayRef,
                 Kind::Range,
                 Kind::RangeRef,
+                Kind::SliceNoClone,
             ];
             o.w_query = 10;
             o.w_skip = 4;
